@@ -610,6 +610,95 @@ impl PropCtx {
         });
     }
 
+    /// Thorough tier: a fixed-work libFuzzer campaign on the in-process
+    /// subcheck `target` ("C01:line_match"), through the `fz` target of
+    /// /verif/harness/fuzz (same generators, same oracle, coverage guided).
+    /// A crash is believed only after `confirm` re-executes the saved case.
+    /// If the nightly fuzz build is unavailable this is recorded as a note.
+    pub fn run_fuzz(&self, target: &str, runs: u64, max_len: usize, confirm: &dyn Fn(&Value) -> Verdict) {
+        if self.has_failure() {
+            return;
+        }
+        let t0 = Instant::now();
+        let root = verif_root();
+        let harness = format!("{root}/harness");
+        let corpus = PathBuf::from(&root).join("out").join("fuzz").join(target.replace(':', "_"));
+        let _ = std::fs::remove_dir_all(&corpus);
+        let _ = std::fs::create_dir_all(&corpus);
+        // seed corpus: a few pseudo-random tapes derived from the seed
+        for i in 0..8u64 {
+            let mut bytes = vec![];
+            let mut k = 0u64;
+            while bytes.len() < max_len / 2 {
+                bytes.extend_from_slice(&mix_seed(self.seed, target, "corpus", i * 1000 + k));
+                k += 1;
+            }
+            let _ = std::fs::write(corpus.join(format!("seed{i}")), &bytes);
+        }
+        let out = std::process::Command::new("cargo")
+            .current_dir(&harness)
+            .env("CARGO_NET_OFFLINE", "true")
+            .env("VERIF_FUZZ_TARGET", target)
+            .env("VERIF_ROOT", &root)
+            .args(["+nightly", "fuzz", "run", "fz"])
+            .arg(&corpus)
+            .arg("--")
+            .arg(format!("-runs={runs}"))
+            .arg(format!("-seed={}", (self.seed % 0xFFFF_FFFF).max(1)))
+            .arg("-len_control=0")
+            .arg(format!("-max_len={max_len}"))
+            .arg("-print_final_stats=1")
+            .arg(format!("-artifact_prefix={}/", corpus.display()))
+            .output();
+        let sub = format!("fuzz:{target}");
+        let out = match out {
+            Ok(o) => o,
+            Err(e) => {
+                self.note(format!("{sub}: could not start cargo fuzz: {e}"));
+                return;
+            }
+        };
+        let err = String::from_utf8_lossy(&out.stderr).to_string();
+        let execs = err
+            .lines()
+            .find_map(|l| l.strip_prefix("stat::number_of_executed_units:").and_then(|x| x.trim().parse::<u64>().ok()))
+            .unwrap_or(0);
+        let cov = err.lines().rev().find_map(|l| {
+            let i = l.find(" cov: ")?;
+            l[i + 6..].split_whitespace().next()?.parse::<u64>().ok()
+        });
+        if let Some(line) = err.lines().find(|l| l.starts_with("FUZZ-FAILURE replay=")) {
+            let path = line.trim_start_matches("FUZZ-FAILURE replay=").trim().to_string();
+            let v: Option<Value> = std::fs::read_to_string(&path).ok().and_then(|t| serde_json::from_str(&t).ok());
+            if let Some(v) = v {
+                match confirm(&v["case"]) {
+                    Verdict::Fail(f) => {
+                        if self.match_known(&f).is_none() {
+                            self.record_failure(Failure { subcheck: v["subcheck"].as_str().unwrap_or("").to_string(), case: v["case"].clone(), detail: format!("found by libFuzzer ({target}):\n{}", f.detail) });
+                        }
+                    }
+                    _ => self.inconclusive(format!("{sub}: the fuzzer reported a failure ({path}) that does not reproduce in a fresh execution")),
+                }
+            }
+        } else if !out.status.success() {
+            if execs == 0 {
+                self.note(format!("{sub}: cargo +nightly fuzz did not run (build unavailable?): {}", err.lines().rev().take(3).collect::<Vec<_>>().join(" | ")));
+            } else {
+                self.inconclusive(format!("{sub}: fuzz target ended abnormally after {execs} executions without a semantic failure (crash/OOM/timeout): {}", err.lines().rev().take(5).collect::<Vec<_>>().join(" | ")));
+            }
+        }
+        self.evaluations.fetch_add(execs, Ordering::Relaxed);
+        self.subchecks.lock().unwrap().push(json!({
+            "subcheck": sub,
+            "engine": "libFuzzer (cargo +nightly fuzz run fz), bytes = choice tape, oracle inside the target",
+            "requested_runs": runs,
+            "executions": execs,
+            "coverage_edges": cov,
+            "wall_s": t0.elapsed().as_secs_f64(),
+        }));
+        let _ = std::fs::remove_dir_all(&corpus);
+    }
+
     /// Require that a class was produced at least `min` times; otherwise the
     /// run is inconclusive (a generator that stopped producing the shape that
     /// matters is a broken check, not a pass).
